@@ -76,6 +76,12 @@ def Rx.recv (A : Aead) (r : Rx) (chunk : Bytes) : Rx × Bytes :=
 def upgrade (leftover : Bytes) : Rx :=
   if leftover = [] then {} else { closed := true }
 
+/-- `HAPServerProtocol._process_response` when a response carries a shared key on a connection
+    that is ALREADY secured (pair-verify completed a second time, inside the session): the
+    `HAPCrypto` object is replaced by a new one for the new key — fresh counter, empty ciphertext
+    buffer; nothing of the old receive state survives. A closed connection stays closed. -/
+def Rx.rekey (r : Rx) : Rx := if r.closed then r else {}
+
 /-- feed a list of reads; total bytes handed to the HTTP layer -/
 def Rx.run (A : Aead) : Rx → List Bytes → Rx × Bytes
   | r, [] => (r, [])
@@ -83,6 +89,13 @@ def Rx.run (A : Aead) : Rx → List Bytes → Rx × Bytes
     let (r1, o1) := r.recv A c
     let (r2, o2) := Rx.run A r1 cs
     (r2, o1 ++ o2)
+
+/-- two sessions on one connection: reads `cs1` under the first key, the re-key, reads `cs2` under
+    the second key. Returns the final state and the bytes handed over in each epoch. -/
+def Rx.run2 (A1 A2 : Aead) (r : Rx) (cs1 cs2 : List Bytes) : Rx × Bytes × Bytes :=
+  let (r1, o1) := Rx.run A1 r cs1
+  let (r2, o2) := Rx.run A2 r1.rekey cs2
+  (r2, o1, o2)
 
 /-- per-read outputs (what each `data_received` call handed over) -/
 def Rx.trace (A : Aead) : Rx → List Bytes → List Bytes
